@@ -24,6 +24,7 @@ type progCase struct {
 	prog    *program
 	dynamic bool
 	note    string
+	steps   int // trampoline polls allowed (0: stepLimit)
 }
 
 const answerLimit = 12
@@ -59,7 +60,11 @@ func observeProgram(pc *progCase, timeout time.Duration) (out outcome, timedOut 
 	}
 	wall, cancel := context.WithTimeout(context.Background(), timeout)
 	defer cancel()
-	ctx := newStepCtx(wall, stepLimit)
+	limit := stepLimit
+	if pc.steps > 0 {
+		limit = pc.steps
+	}
+	ctx := newStepCtx(wall, limit)
 	out = runQueryCtx(ctx, p, answerLimit, pc.prog.queryVars(), pc.prog.query.text()+" .")
 	if strings.Contains(out.GoErr, "deadline exceeded") || strings.Contains(out.GoErr, "context canceled") {
 		return out, true, ""
@@ -309,7 +314,12 @@ func runC01(outDir string, seed int64, tier string) {
 	f := feat{nestedOr: true, topOr: true, callN: true, arith: true}
 	sel := selectionPrograms()
 	wide := widePrograms()
+	deep := deepPrograms(0, tier)
 	runProgProperty("C01", outDir, seed, tier, func(r *rng, i int) *progCase {
+		if i < len(deep) {
+			return deep[i]
+		}
+		i -= len(deep)
 		if i < len(sel) {
 			return &progCase{prog: sel[i], note: "selection"}
 		}
@@ -317,8 +327,8 @@ func runC01(outDir string, seed int64, tier string) {
 			return &progCase{prog: wide[i-len(sel)], note: "wide"}
 		}
 		return &progCase{prog: genProgram(r, f)}
-	}, 1000, 8000,
-		"wide goals (two-alternative disjunctions and call/N goals with 7-11 distinct free variables, one after the other); clause selection exhaustively over small shapes (18 head shapes x 30 argument shapes x 3 positions: closed lists of length 0-3, list patterns, string-backed lists, partial lists of every prefix length, atoms, integers, compounds, repeated variables); then random programs: 1-5 predicates of arity 0-3 with 1-4 clauses, nested terms/lists/partial lists in heads, bodies with conjunction, nested and top-level disjunction (no cut), call/N, arithmetic, between/3, member/2 and a library with direct and mutual recursion; queries of 1-3 goals; up to 12 answers compared as sequences up to variable renaming; distinct by program+query text; non-trivial = at least one answer or an error")
+	}, 1000+len(deep), 8000+len(deep),
+		"deep goals (a recursion of depth 600, thorough also 40 and 1100, after an older choice point, bare, under call/1 and in a disjunction); wide goals (two-alternative disjunctions and call/N goals with 7-11 distinct free variables, one after the other); clause selection exhaustively over small shapes (18 head shapes x 30 argument shapes x 3 positions: closed lists of length 0-3, list patterns, string-backed lists, partial lists of every prefix length, atoms, integers, compounds, repeated variables); then random programs: 1-5 predicates of arity 0-3 with 1-4 clauses, nested terms/lists/partial lists in heads, bodies with conjunction, nested and top-level disjunction (no cut), call/N, arithmetic, between/3, member/2 and a library with direct and mutual recursion; queries of 1-3 goals; up to 12 answers compared as sequences up to variable renaming; distinct by program+query text; non-trivial = at least one answer or an error")
 }
 
 func runC03(outDir string, seed int64, tier string) {
@@ -329,7 +339,12 @@ func runC03(outDir string, seed int64, tier string) {
 		maxLen = 5
 	}
 	skel := skeletonBodies([]string{"m", "!", "f", "c"}, maxLen)
+	deep := deepPrograms(1, tier)
 	runProgProperty("C03", outDir, seed, tier, func(r *rng, i int) *progCase {
+		if i < len(deep) {
+			return deep[i]
+		}
+		i -= len(deep)
 		if i < len(skel) {
 			return &progCase{prog: skeletonProgram(skel[i], i%3+3*0), note: "skeleton"}
 		}
@@ -337,8 +352,8 @@ func runC03(outDir string, seed int64, tier string) {
 			return &progCase{prog: skeletonProgram(skel[i-len(skel)], (i+1)%3), note: "skeleton"}
 		}
 		return &progCase{prog: genProgram(r, f)}
-	}, 1000, 8000,
-		"random programs as for C01 plus: '!' as a direct conjunct of clause bodies and of top-level disjuncts, cuts inside call/1, \\+, once/1, findall/3 goals, if-then(-else) and once with cut-free branches, nondeterministic goals before and after the cut; up to 12 answers compared as sequences; distinct by program+query text; non-trivial = at least one answer or an error")
+	}, 1000+len(deep), 8000+len(deep),
+		"deep goals: a recursion of depth 600 (thorough also 40 and 1100) that leaves its frames on the promise stack, after an older choice point, pruned by a cut in the only and in the last clause, once/1, if-then-else, \\+, call((G,!)), inside findall/3; exhaustive control skeletons; random programs as for C01 plus: '!' as a direct conjunct of clause bodies and of top-level disjuncts, cuts inside call/1, \\+, once/1, findall/3 goals, if-then(-else) and once with cut-free branches, nondeterministic goals before and after the cut; up to 12 answers compared as sequences; distinct by program+query text; non-trivial = at least one answer or an error")
 }
 
 func runC04(outDir string, seed int64, tier string) {
@@ -349,13 +364,18 @@ func runC04(outDir string, seed int64, tier string) {
 		maxLen = 4
 	}
 	skel := skeletonBodies([]string{"m", "x", "k", "K", "e", "!"}, maxLen)
+	directed := append(deepPrograms(2, tier), rethrowPrograms()...)
 	runProgProperty("C04", outDir, seed, tier, func(r *rng, i int) *progCase {
+		if i < len(directed) {
+			return directed[i]
+		}
+		i -= len(directed)
 		if i < len(skel) {
 			return &progCase{prog: skeletonProgram(skel[i], i%2+3*(i/2%2)), note: "skeleton"}
 		}
 		return &progCase{prog: genProgram(r, f)}
-	}, 1000, 8000,
-		"random programs as for C03 plus catch/3 and throw/1 at any nesting with balls that do or do not unify with the catchers and share variables with the goal, built-in errors (type, instantiation, evaluation), throws after a catch/3 goal has exited and after backtracking into it; answers and the final error term compared; distinct by program+query text; non-trivial = at least one answer or an error")
+	}, 1000+len(directed), 8000+len(directed),
+		"deep goals under catch/3 (an error raised 600 levels down, caught, not caught, caught outside an older choice point); caught balls that Recovery or the continuation instantiates and throws again (one to three levels, after backtracking into Recovery, not caught again); exhaustive control skeletons; random programs as for C03 plus catch/3 and throw/1 at any nesting with balls that do or do not unify with the catchers and share variables with the goal, built-in errors (type, instantiation, evaluation), throws after a catch/3 goal has exited and after backtracking into it; answers and the final error term compared; distinct by program+query text; non-trivial = at least one answer or an error")
 }
 
 func runC11(outDir string, seed int64, tier string) {
